@@ -32,6 +32,9 @@ def sz_instances(tier):
         # descriptors on two atoms that are bonded to each other inside the token, with another order than their own bond
         M("C[>]", S("[>]", ["[<]C=C[>]", "[<]CC[>]"], ["[<][H]"], "[<]", None), "[<]O", name="vinylene"),
         M("C[$]", S("[$]", ["[$]C#C[$]"], ["[$]F"], "[$]", None), "[$]N", name="ethynylene"),
+        # one atom carrying two descriptors of different bond order, each with its own end group
+        M(S("[]", ["[<]=C([<])CC[>]"], ["[>]=O", "[>]F"], "[]", None), name="two-orders-on-one-atom"),
+        M(S("[]", ["[<]C(=[<])CC[>]"], ["[>]F", "[>]=O"], "[]", None), name="two-orders-on-one-atom-b"),
         # starts inside the object (no prefix), end groups, quaternary carbons, followed by a suffix
         M(S("[]", ["[<]C(C)(C)C(C)(C)[>]"], ["[<][H]", "[>][H]"], "[<]", None), "[<]O", name="no-prefix-quaternary"),
         M(S("[]", ["[<]C(C)(C)C(C)(C)[>]"], ["[<][H]", "[>]F"], "[<]", None), S("[>]", ["[<]CC[>]"], ["[<]Cl"], "[<]", None), "[<][H]", name="no-prefix-two-blocks"),
